@@ -36,7 +36,8 @@ def factorize_arrow_arr(
         arr = arr.combine_chunks()
 
     # a null key has a null index: give it the null code instead of a float NaN
-    codes = arr.indices.fill_null(-1).to_numpy(zero_copy_only=False)
+    # (signed first: the indices of a user-supplied dictionary array may be unsigned)
+    codes = arr.indices.cast(pa.int64()).fill_null(-1).to_numpy(zero_copy_only=False)
     labels = pd.Index(arr.dictionary.to_pandas(types_mapper=pd.ArrowDtype), name=name)
 
     return codes, labels
